@@ -117,18 +117,74 @@ func runC07(p *core.Prog, r *core.Report) {
 				core.Undecide("GetExecutionPlan: expected one %s call", pr.name)
 			}
 			c := calls[0]
-			edges := errNonNilEdges(fn, c)
-			ok := len(edges) > 0
-			for _, e := range edges {
-				b := e.From.Succs[e.Idx]
-				if ret, isRet := b.Instrs[len(b.Instrs)-1].(*ssa.Return); !isRet || core.ReturnsNilError(ret) {
+			// in GetExecutionPlan itself, or in the helper that probes (whose own error GetExecutionPlan must then return too)
+			ok := true
+			for _, site := range []ssa.Instruction{c, core.SiteIn(fn, c)} {
+				if site == nil {
 					ok = false
+					continue
+				}
+				edges := errNonNilEdges(site.Parent(), site)
+				if len(edges) == 0 {
+					ok = false
+				}
+				for _, e := range edges {
+					b := e.From.Succs[e.Idx]
+					if ret, isRet := b.Instrs[len(b.Instrs)-1].(*ssa.Return); !isRet || core.ReturnsNilError(ret) {
+						ok = false
+					}
 				}
 			}
 			r.Check(ok, "C07.R1", "GetExecutionPlan/"+pr.name+"-error", "an error of the snapshot existence probe aborts the plan (it is not read as `absent` nor as `present`)", "probe error not returned", p.Pos(c.Pos()))
 		}
 		// the store becomes required (and to-write) exactly on the path where both probes said "absent"
+		// the edges on which a probe's answer is "absent": tests of the answer itself, or — when the answer is handed back
+		// by a helper as its own result — tests of that result at the helper's call
 		var absentEdges []core.Edge
+		var falseEdges func(v ssa.Value, depth int) []core.Edge
+		falseEdges = func(v ssa.Value, depth int) []core.Edge {
+			var out []core.Edge
+			for _, rr := range *v.Referrers() {
+				switch x := rr.(type) {
+				case *ssa.UnOp:
+					if x.Op == token.NOT {
+						for _, r3 := range *x.Referrers() {
+							if ifi, ok := r3.(*ssa.If); ok {
+								out = append(out, core.Edge{From: ifi.Block(), Idx: 0})
+							}
+						}
+					}
+				case *ssa.If:
+					if x.Cond == v {
+						out = append(out, core.Edge{From: x.Block(), Idx: 1})
+					}
+				case *ssa.Return:
+					if depth == 0 {
+						continue
+					}
+					h := x.Parent()
+					for i, rv := range core.ReturnValues(x) {
+						if rv != v {
+							continue
+						}
+						for _, m := range core.Family(fn, 1) {
+							core.Instrs(m, func(in ssa.Instruction) {
+								hc, ok := in.(*ssa.Call)
+								if !ok || core.StaticFn(hc.Common()) != h {
+									return
+								}
+								for _, ref := range *hc.Referrers() {
+									if ex, ok := ref.(*ssa.Extract); ok && ex.Index == i {
+										out = append(out, falseEdges(ex, depth-1)...)
+									}
+								}
+							})
+						}
+					}
+				}
+			}
+			return out
+		}
 		for _, obj := range []*types.Func{exFull, exPart} {
 			for _, c := range core.FindInstrs(fn, core.IsCallTo(obj)) {
 				for _, ref := range *c.(ssa.Value).Referrers() {
@@ -136,21 +192,9 @@ func runC07(p *core.Prog, r *core.Report) {
 					if !ok || ex.Index != 0 {
 						continue
 					}
-					for _, rr := range *ex.Referrers() {
-						var cond ssa.Value = ex
-						neg := false
-						if u, ok := rr.(*ssa.UnOp); ok && u.Op == token.NOT {
-							cond, neg = u, true
-							for _, r3 := range *u.Referrers() {
-								if ifi, ok := r3.(*ssa.If); ok {
-									absentEdges = append(absentEdges, core.Edge{From: ifi.Block(), Idx: 0})
-								}
-							}
-							continue
-						}
-						if ifi, ok := rr.(*ssa.If); ok && ifi.Cond == cond && !neg {
-							absentEdges = append(absentEdges, core.Edge{From: ifi.Block(), Idx: 1})
-						}
+					es := falseEdges(ex, 1)
+					if len(es) > 0 {
+						absentEdges = append(absentEdges, es[0])
 					}
 				}
 			}
@@ -291,7 +335,7 @@ func runC07(p *core.Prog, r *core.Report) {
 				unit := c.(ssa.CallInstruction).Common().Args[1]
 				// an If on the result of markFound(..., unit, ...) whose true edge is the only way to the call
 				ok := false
-				core.Instrs(fn, func(in ssa.Instruction) {
+				core.InstrsDeep(fn, func(in ssa.Instruction) {
 					ifi, isIf := in.(*ssa.If)
 					if !isIf {
 						return
@@ -314,7 +358,7 @@ func runC07(p *core.Prog, r *core.Report) {
 		// full snapshots and partials are counted separately: the tally that can mark a unit Completed is not the tally that
 		// can mark it PartialPresent (a unit with one module's full snapshot and another module's partial is neither)
 		tallyOf := map[*types.Func]map[ssa.Value]bool{}
-		core.Instrs(fn, func(in ssa.Instruction) {
+		core.InstrsDeep(fn, func(in ssa.Instruction) {
 			ifi, isIf := in.(*ssa.If)
 			if !isIf {
 				return
@@ -330,7 +374,7 @@ func runC07(p *core.Prog, r *core.Report) {
 						if tallyOf[m] == nil {
 							tallyOf[m] = map[ssa.Value]bool{}
 						}
-						tallyOf[m][core.ResolveCell(mc.Call.Args[0])] = true
+						tallyOf[m][core.ResolveCell(core.CallerValue(fn, mc.Call.Args[0]))] = true
 					}
 				}
 			}
@@ -373,7 +417,7 @@ func runC07(p *core.Prog, r *core.Report) {
 		rt := p.Named(pkgBlock, "Range")
 		endF := core.FieldOf(rt, "ExclusiveEndBlock")
 		nCmp := 0
-		core.Instrs(fn, func(in ssa.Instruction) {
+		core.InstrsDeep(fn, func(in ssa.Instruction) {
 			bo, ok := in.(*ssa.BinOp)
 			if ok && (bo.Op == token.NEQ || bo.Op == token.EQL) {
 				fx, _ := core.LoadedField(bo.X)
@@ -389,18 +433,48 @@ func runC07(p *core.Prog, r *core.Report) {
 		r.Check(nCmp >= 3, "C07.R2", "FetchStoresState/range-match", "a listed file counts for a unit only if its range matches the unit's segment range (end for full snapshots and outputs, whole range for partials)", fmt.Sprintf("%d range comparisons", nCmp), p.Pos(fn.Pos()))
 		// partials of completed units are ignored
 		okIgn := false
-		core.Instrs(fn, func(in ssa.Instruction) {
-			ifi, ok := in.(*ssa.If)
-			if !ok {
-				return
+		// every way to MarkSegmentPartialPresent(unit) goes over the edge on which getState(that unit) was found different
+		// from UnitCompleted (the test is read where the marking call is: FetchStoresState or its helper)
+		completedVal := ""
+		for _, c := range core.EnumConsts(p.Named(pkgStage, "UnitState")) {
+			if c.Name() == "UnitCompleted" {
+				completedVal = c.Val().ExactString()
 			}
-			if onT, _, ok := core.CondRelation(ifi.Cond, func(v ssa.Value) bool {
-				c, ok := v.(*ssa.Call)
-				return ok && core.CommonCallee(c.Common()) == p.FuncObj(pkgStage, "Stages.getState")
-			}, func(v ssa.Value) bool { _, ok := v.(*ssa.Const); return ok }); ok && onT == core.OrdEQ {
-				okIgn = true
+		}
+		getStateObj := p.FuncObj(pkgStage, "Stages.getState")
+		ppCalls := core.FindInstrs(fn, core.IsCallTo(marks[1]))
+		okIgn = len(ppCalls) > 0 && completedVal != ""
+		for _, pc := range ppCalls {
+			unit := pc.(ssa.CallInstruction).Common().Args[1]
+			holder := pc.Parent()
+			var notCompleted []core.Edge
+			core.Instrs(holder, func(in ssa.Instruction) {
+				ifi, ok := in.(*ssa.If)
+				if !ok {
+					return
+				}
+				onT, onF, ok := core.CondRelation(ifi.Cond, func(v ssa.Value) bool {
+					c, ok := v.(*ssa.Call)
+					return ok && core.CommonCallee(c.Common()) == getStateObj && (sameUnit(c.Call.Args[1], unit) || sameExpr(c.Call.Args[1], unit, 2))
+				}, func(v ssa.Value) bool {
+					k, ok := v.(*ssa.Const)
+					return ok && k.Value != nil && k.Value.ExactString() == completedVal
+				})
+				if !ok {
+					return
+				}
+				if onT&core.OrdEQ == 0 {
+					notCompleted = append(notCompleted, core.Edge{From: ifi.Block(), Idx: 0})
+				}
+				if onF&core.OrdEQ == 0 {
+					notCompleted = append(notCompleted, core.Edge{From: ifi.Block(), Idx: 1})
+				}
+			})
+			q := core.PathQuery{Fn: holder, CutEdge: func(e core.Edge) bool { return containsEdge(notCompleted, e) }}
+			if _, reach := q.CanReach(nil, func(x ssa.Instruction) bool { return x == pc }); reach || len(notCompleted) == 0 {
+				okIgn = false
 			}
-		})
+		}
 		r.Check(okIgn, "C07.R2", "FetchStoresState/full-over-partial", "a partial found for a unit already completed by a full snapshot is ignored", "state test not found", p.Pos(fn.Pos()))
 	})
 
@@ -541,8 +615,17 @@ func runC07(p *core.Prog, r *core.Report) {
 			}
 		})
 		// both goroutines send exactly one result
+		// (the goroutines are closures of the function, or functions of the package started with `go`)
 		sends := 0
-		for _, cl := range fn.AnonFuncs {
+		probes := append([]*ssa.Function{}, fn.AnonFuncs...)
+		core.Instrs(fn, func(in ssa.Instruction) {
+			if g, ok := in.(*ssa.Go); ok {
+				if callee := core.StaticFn(g.Common()); callee != nil && callee.Parent() == nil && callee.Pkg == fn.Pkg && callee.Blocks != nil {
+					probes = append(probes, callee)
+				}
+			}
+		})
+		for _, cl := range probes {
 			core.Instrs(cl, func(in ssa.Instruction) {
 				if _, ok := in.(*ssa.Send); ok {
 					sends++
